@@ -31,6 +31,13 @@ static bool g_realloc_fails;
 static void *g_realloc_ptr;
 static size_t g_realloc_size;
 
+#ifdef VERIF_NATIVE
+/* native replay: the element-array functions never call it; it only satisfies the linker */
+void *lrtr_malloc(size_t n)
+{
+	abort();
+}
+#endif
 void *lrtr_realloc(void *ptr, size_t size)
 {
 	g_realloc_ptr = ptr;
